@@ -256,6 +256,15 @@ def threshold_cases(chk, kinds=None):
         out.append(("D2", 2, [2, 1, 100, 0, 0, [1, 2], [[cell, cell[:3]]]]))
     if chk.tier == "quick":                      # the 9- and 6-component kinds only in the thorough tier (model time)
         out = [c for c in out if c[0] not in ("FT", "PD")]
+    # one contiguous run of more than 2^17 frames that does not start at frame 0 (a long recording with a few missing
+    # frames before first contact): force/torque in C01 / C05 already in the quick tier, everywhere in the thorough one
+    if chk.tier != "quick" or getattr(chk, "pid", "") in ("C01", "C05"):
+        n2 = 2 ** 17 + 9000
+        out.append(("FT", 1, [1, 1000, 0, n2, z3, z9, z3, [], [[[0x72], vec(n2, 9, [(0, 7)])]]]))
+    if chk.tier != "quick":
+        n2 = 2 ** 17 + 9000
+        out.append(("EM", 1, [1, 1000, 0, n2, [0], [[[0x65], scal(n2, [(0, 3), (2 ** 17 - 1, 2 ** 17 + 1)])]]]))
+        out.append(("D3", 2, [n2, 100, 0, 1, z3, z9, z3, 0, [], [[[0x61], vec(n2, 3, [(0, 5)])]]]))
     out = [c for c in out if kinds is None or c[0] in kinds]
     for k, f, v in out:
         chk.count("sizes across 2^13 / 2^16: " + k)
@@ -443,3 +452,43 @@ def check_layouts(chk, pid, n):
             elif i["dec"] != v:
                 chk.violation("%s fmt=%d built from %s arrays: decode(encode(b)) differs from b at %s" %
                               (kind, fmt, lay, fdiff(i["dec"], v)), case, True)
+
+
+# ------------------------------------------------------------------ layout-conformant but not canonical
+def rewrite_segments(kind, fmt, v, raw, how):
+    """the same block with every track's segment table rewritten — still conformant to the layout (which says nothing
+    about the order or the maximality of the runs), as another writer might produce it:
+    how = "reversed" (later pieces listed, and stored, first) | "rotated" | "split" (every run of >= 2 frames as two
+    adjacent runs).  Pure byte surgery with struct; returns the new bytes."""
+    from harness import c05
+    off = c05.HDR[kind](fmt, v)
+    ncomp = c05.RL_KINDS[kind]
+    out = bytearray(raw[:off])
+    for _ in c05.tracks_of(kind, v):
+        lab = b""
+        if kind != "PD":
+            lab = raw[off:off + 256]
+            off += 256
+        n, segs, off2 = seg_table_from_bytes(kind, raw, off)
+        pad = raw[off + 4:off + 8]
+        runs, p = [], off2
+        for s0, cnt in segs:
+            runs.append((s0, cnt, raw[p:p + cnt * 4 * ncomp]))
+            p += cnt * 4 * ncomp
+        if how == "reversed":
+            runs = runs[::-1]
+        elif how == "rotated":
+            runs = runs[1:] + runs[:1]
+        elif how == "split":
+            new = []
+            for s0, cnt, d in runs:
+                if cnt >= 2:
+                    k = cnt // 2
+                    new += [(s0, k, d[:k * 4 * ncomp]), (s0 + k, cnt - k, d[k * 4 * ncomp:])]
+                else:
+                    new.append((s0, cnt, d))
+            runs = new
+        out += lab + struct.pack("<i", len(runs)) + pad + b"".join(struct.pack("<ii", a, c) for a, c, _ in runs) + b"".join(d for _, _, d in runs)
+        off = p
+    out += raw[off:]
+    return bytes(out)
